@@ -2,6 +2,9 @@
   C14 — hash, math and string module functions compute their definitions.
   Property theorems only (helpers: Lemmas/HashMath*.lean).  The model (Model/HashMath.lean) mirrors
   hash.c / math.c / string.c; the definitions the property speaks about are in Spec/HashMath.lean.
+  The model follows the code AFTER the fixes 3e6ded9 (unsigned bytes), 5e43bd9 (statistics across
+  blocks), d04bbf9 (walker break test), 3070536 (abs); the former behaviour is kept only as frozen
+  `…V0` / `signedConv` regression definitions with kernel-checked witnesses of the difference.
   All statements quantify over EVERY block list / byte string / offset / length / call sequence.
   Digest primitives are a parameter `H` (trusted; compared with hashlib by the check).
 -/
@@ -50,11 +53,11 @@ theorem addressedMem_single (base : Nat) (data : Bytes) (off len : Int) :
 
 /-- **Adjacent blocks behave like their concatenation**: behind any prefix of blocks that end
     at or before `b1`, two adjacent non-empty blocks can be replaced by one block holding the
-    concatenated bytes — for every offset and length except the zero-length range that starts
-    exactly at the inner boundary (see `rangeWalk_boundary_zero_length`). -/
+    concatenated bytes — for every offset and length (zero-length ranges at the inner boundary
+    included). -/
 theorem rangeWalk_contig (pre rest : List Block) (b1 b2 : Block) (hc : b2.base = b1.base + b1.size)
     (hs1 : 0 < b1.size) (hs2 : 0 < b2.size) (hpre : ∀ p ∈ pre, p.base + p.size ≤ b1.base)
-    (off len : Int) (hz : ¬ (len = 0 ∧ off = b2.base)) :
+    (off len : Int) :
     rangeWalk (pre ++ b1 :: b2 :: rest) off len =
       rangeWalk (pre ++ ⟨b1.base, b1.data ++ b2.data⟩ :: rest) off len := by
   unfold rangeWalk chunksWalk
@@ -63,10 +66,7 @@ theorem rangeWalk_contig (pre rest : List Block) (b1 b2 : Block) (hc : b2.base =
     cases pre <;> rfl
   rw [hargs]
   split
-  · next hok =>
-    have hnn : 0 ≤ off ∧ 0 ≤ len := by
-      cases pre <;> simp [argsOk] at hok <;> omega
-    exact walk_contig_prefix pre b1 b2 rest hc hs1 hs2 hpre off.toNat len.toNat false (by simp) (by omega)
+  · exact walk_contig_prefix pre b1 b2 rest hc hs1 hs2 hpre off.toNat len.toNat false (by simp)
   · rfl
 
 example : rangeWalk [⟨0, [1, 2]⟩, ⟨2, [3]⟩, ⟨3, [4, 5]⟩] 1 3 = rangeWalk [⟨0, [1, 2]⟩, ⟨2, [3, 4, 5]⟩] 1 3 ∧
@@ -89,31 +89,32 @@ example : rangeWalk [⟨0, [1, 2, 3]⟩, ⟨4, [5, 6]⟩] 1 4 = none ∧ rangeWa
   decide
 
 /-- Blocks that end before the offset are skipped: the range may start in any block. -/
-theorem rangeWalk_skip (b b' : Block) (rest : List Block) (off len : Int) (hb : 0 ≤ len)
-    (hoff : (b.base + b.size : Int) ≤ off) (hoff' : (b'.base : Int) ≤ off)
-    (hne : ¬ (off = b.base + b.size ∧ len = 0)) :
+theorem rangeWalk_skip (b b' : Block) (rest : List Block) (off len : Int)
+    (hoff : (b.base + b.size : Int) ≤ off) (hoff' : (b'.base : Int) ≤ off) :
     rangeWalk (b :: b' :: rest) off len = rangeWalk (b' :: rest) off len := by
   unfold rangeWalk chunksWalk argsOk
-  have h1 : (decide (off < 0) || decide (len < 0) || decide (off < (b.base : Int))) = false := by
-    simp only [Bool.or_eq_false_iff, decide_eq_false_iff_not]; omega
-  have h3 : (decide (off < 0) || decide (len < 0) || decide (off < (b'.base : Int))) = false := by
-    simp only [Bool.or_eq_false_iff, decide_eq_false_iff_not]; omega
-  simp only [h1, h3, Bool.not_false, if_true]
-  rw [walkLoop_out b _ _ _ false (by omega)]
-  simp only [Bool.false_eq_true, if_false]
-  rw [if_neg (by omega)]
+  by_cases hl : len < 0
+  · have h1 : (decide (off < 0) || decide (len < 0) || decide (off < (b.base : Int))) = true := by simp [hl]
+    have h3 : (decide (off < 0) || decide (len < 0) || decide (off < (b'.base : Int))) = true := by simp [hl]
+    simp [h1, h3]
+  · have h1 : (decide (off < 0) || decide (len < 0) || decide (off < (b.base : Int))) = false := by
+      simp only [Bool.or_eq_false_iff, decide_eq_false_iff_not]; omega
+    have h3 : (decide (off < 0) || decide (len < 0) || decide (off < (b'.base : Int))) = false := by
+      simp only [Bool.or_eq_false_iff, decide_eq_false_iff_not]; omega
+    simp only [h1, h3, Bool.not_false, if_true]
+    rw [walkLoop_out b _ _ _ false (by omega)]
+    rfl
 
 example : rangeWalk [⟨0, [1, 2]⟩, ⟨4, [5, 6, 7]⟩] 5 1 = some [6] := by decide
 
 /-- **Every block layout**: on every ascending list of non-empty, non-overlapping blocks (any
     number of blocks, any gaps) the walker returns exactly the memory-map specification
     (`Spec.addressedMem`: the bytes at addresses off … min(off+len, end of memory)−1, undefined when
-    the range starts at an unmapped address or crosses an unmapped one) — for every offset and
-    length except a zero-length range that starts exactly at the end of a block. -/
-theorem rangeWalk_eq_addressedMem (blocks : List Block) (hl : Layout blocks) (off len : Int)
-    (hz : len = 0 → ∀ b ∈ blocks, off ≠ ((b.base + b.size : Nat) : Int)) :
+    the range starts at an unmapped address or crosses an unmapped one) — for EVERY offset and
+    length, zero-length ranges at inner block boundaries included (full strength since fix d04bbf9). -/
+theorem rangeWalk_eq_addressedMem (blocks : List Block) (hl : Layout blocks) (off len : Int) :
     rangeWalk blocks off len = Spec.addressedMem (toMem blocks) off len :=
-  rangeWalk_eq_addressedMem_lemma blocks hl off len hz
+  rangeWalk_eq_addressedMem_lemma blocks hl off len
 
 example : Layout [⟨0, [1, 2]⟩, ⟨2, [3]⟩, ⟨5, [6, 7]⟩] ∧
     Spec.addressedMem (toMem [⟨0, [1, 2]⟩, ⟨2, [3]⟩, ⟨5, [6, 7]⟩]) 1 2 = some [2, 3] ∧
@@ -122,23 +123,49 @@ example : Layout [⟨0, [1, 2]⟩, ⟨2, [3]⟩, ⟨5, [6, 7]⟩] ∧
   refine ⟨?_, by decide, by decide, by decide⟩
   simp [Layout, Block.size]
 
-/-- What the code does for the excluded case of `rangeWalk_contig` (a DEVIATION from the
-    concatenation semantics, reported as a finding): a zero-length range that starts exactly where
-    a block ends and the next one begins is undefined, because the loop leaves at the first block
-    (`base + size >= offset + length`) before any block was entered. -/
+/-- A zero-length range that starts exactly where a block ends and the next one begins is the
+    empty string (as on the concatenated buffer). -/
 theorem rangeWalk_boundary_zero_length (b1 b2 : Block) (rest : List Block)
-    (hc : b2.base = b1.base + b1.size) :
-    rangeWalk (b1 :: b2 :: rest) (b2.base : Int) 0 = none := by
+    (hc : b2.base = b1.base + b1.size) (hs2 : 0 < b2.size) :
+    rangeWalk (b1 :: b2 :: rest) (b2.base : Int) 0 = some [] := by
   unfold rangeWalk chunksWalk argsOk
   have h1 : (decide ((b2.base : Int) < 0) || decide ((0 : Int) < 0) || decide ((b2.base : Int) < (b1.base : Int))) = false := by
     simp only [Bool.or_eq_false_iff, decide_eq_false_iff_not]; omega
   simp only [h1, Bool.not_false, if_true]
   rw [walkLoop_out b1 _ _ _ false (by simp; omega)]
   simp only [Bool.false_eq_true, if_false]
-  rw [if_pos (by simp; omega)]
-  rfl
+  rw [walkLoop_in b2 rest _ _ false (by simp; omega), if_pos (by simp)]
+  simp [chunk_eq_slice, Spec.slice]
 
-example : rangeWalk [⟨0, [1, 2]⟩, ⟨2, [3]⟩] 2 0 = none ∧ rangeWalk [⟨0, [1, 2, 3]⟩] 2 0 = some [] := by decide
+/-- Regression witness (kernel-checked): the walker before fix d04bbf9 (`walkLoopV0`, frozen)
+    gave undefined for that range, the fixed walker gives the empty string. -/
+theorem walker_v0_boundary_witness :
+    walkLoopV0 [⟨0, [1, 2]⟩, ⟨2, [3]⟩] 2 0 false = none ∧
+    walkLoop [⟨0, [1, 2]⟩, ⟨2, [3]⟩] 2 0 false = some [[]] ∧
+    rangeWalk [⟨0, [1, 2, 3]⟩] 2 0 = some [] := by decide
+
+/-- **No wrap in the break test** `base + size >= (uint64_t) offset + (uint64_t) length`: for all
+    non-negative int64 `offset`, `length` (as 64-bit words: below 2^63) and every block that ends
+    below 2^63, both 64-bit sums are the mathematical sums and the unsigned comparison is the
+    comparison of natural numbers — the walker model may therefore compute in `Nat`. -/
+theorem breakTest_no_wrap (base size off len : BitVec 64)
+    (hoff : off.toNat < 2 ^ 63) (hlen : len.toNat < 2 ^ 63) (hend : base.toNat + size.toNat < 2 ^ 63) :
+    (off + len).toNat = off.toNat + len.toNat ∧ (base + size).toNat = base.toNat + size.toNat ∧
+    breakTestU64 base size off len = decide (base.toNat + size.toNat ≥ off.toNat + len.toNat) := by
+  have h1 : (off + len).toNat = off.toNat + len.toNat := by
+    rw [BitVec.toNat_add]; exact Nat.mod_eq_of_lt (by omega)
+  have h2 : (base + size).toNat = base.toNat + size.toNat := by
+    rw [BitVec.toNat_add]; exact Nat.mod_eq_of_lt (by omega)
+  refine ⟨h1, h2, ?_⟩
+  unfold breakTestU64 BitVec.ule
+  rw [h1, h2]
+
+/-- int64 view of the hypotheses: a non-negative int64 reinterpreted as uint64 is below 2^63. -/
+theorem int64_nonneg_lt (x : BitVec 64) (h : 0 ≤ x.toInt) : x.toNat < 2 ^ 63 := by
+  rw [BitVec.toInt_eq_toNat_cond] at h
+  split at h <;> omega
+
+example : breakTestU64 5 5 1 (BitVec.ofNat 64 (2 ^ 63 - 1)) = false ∧ breakTestU64 5 5 3 7 = true := by decide
 
 /-! ## crc32 and checksum32 -/
 
@@ -276,33 +303,41 @@ theorem mode_hist (blocks : List Block) (off len : Int) (m : Nat) (h : dataMode 
 
 example : dataMode [⟨0, [7, 3, 3, 7, 9]⟩] 0 5 = some 3 := by decide +kernel
 
-/-- **partial** — serial correlation equals its definition when the range is served by ONE block.
-    Full statement (false for the code, reported as a finding):
-    `dataSerialCorrelation blocks off len = (rangeWalk blocks off len).map Spec.serialCorrelation`;
-    the code overwrites `sccfirst` at the start of every block. -/
-theorem serial_correlation_one_block_partial (base : Nat) (data : Bytes) (off len : Int) :
-    dataSerialCorrelation [⟨base, data⟩] off len =
-      (rangeWalk [⟨base, data⟩] off len).map Spec.serialCorrelation := by
-  unfold dataSerialCorrelation rangeWalk chunksWalk
-  split
-  · rw [walkLoop_single]
-    split
-    · simp [sccChunks_single]
-    · rfl
-  · rfl
+/-- chunk lists produced by the walker: an empty first chunk is the only chunk -/
+theorem chunksWalk_head_empty (blocks : List Block) (off len : Int) (chunks : List Bytes)
+    (h : chunksWalk blocks off len = some chunks) :
+    ∀ c cs, chunks = c :: cs → c = [] → cs = [] := by
+  intro c cs hcs hc
+  unfold chunksWalk at h
+  split at h
+  · exact walkLoop_head_empty blocks _ _ false c cs (hcs ▸ h) hc
+  · cases h
 
-/-- **partial** — Monte-Carlo pi equals its definition when the range is served by ONE block
-    (the code restarts the 6-byte grouping in every block: finding). -/
-theorem monte_carlo_one_block_partial (base : Nat) (data : Bytes) (off len : Int) :
-    dataMonteCarloPi [⟨base, data⟩] off len =
-      (rangeWalk [⟨base, data⟩] off len).bind Spec.monteCarloPi := by
-  unfold dataMonteCarloPi rangeWalk chunksWalk
-  split
-  · rw [walkLoop_single]
-    split
-    · simp [mcChunks_single]
-    · rfl
-  · rfl
+/-- math.serial_correlation(offset, length) equals its definition on the addressed bytes for
+    EVERY block list (full strength since fix 5e43bd9). -/
+theorem serial_correlation_data (blocks : List Block) (off len : Int) :
+    dataSerialCorrelation blocks off len = (rangeWalk blocks off len).map Spec.serialCorrelation := by
+  unfold dataSerialCorrelation rangeWalk
+  cases h : chunksWalk blocks off len with
+  | none => rfl
+  | some cs => simp [sccChunks_eq cs (chunksWalk_head_empty blocks off len cs h)]
+
+/-- math.monte_carlo_pi(offset, length) equals its definition on the addressed bytes for EVERY
+    block list (full strength since fix 5e43bd9). -/
+theorem monte_carlo_data (blocks : List Block) (off len : Int) :
+    dataMonteCarloPi blocks off len = (rangeWalk blocks off len).bind Spec.monteCarloPi := by
+  unfold dataMonteCarloPi rangeWalk
+  cases chunksWalk blocks off len with
+  | none => rfl
+  | some cs => simp [mcChunks_eq]
+
+/-- Regression witnesses (kernel-checked) for the frozen pre-fix definitions: restarting per block
+    differs from the definition on the concatenation. -/
+theorem stats_v0_witness :
+    sccChunksV0 [[97, 98, 99], [100, 101, 102]] ≠ Spec.serialCorrelation [97, 98, 99, 100, 101, 102] ∧
+    sccChunks [[97, 98, 99], [100, 101, 102]] = Spec.serialCorrelation [97, 98, 99, 100, 101, 102] ∧
+    mcChunksV0 [[1, 2, 3], [4, 5, 6]] = none ∧ (mcChunks [[1, 2, 3], [4, 5, 6]]).isSome = true := by
+  decide +kernel
 
 /-! ## math: string arguments (bytes are 0..255) -/
 
@@ -312,8 +347,8 @@ theorem string_stats_unsigned (bs : Bytes) (m : Rat) :
     sccStr unsignedConv bs = Spec.serialCorrelation bs ∧ mcStr unsignedConv bs = Spec.monteCarloPi bs :=
   ⟨meanStr_unsigned bs, deviationStr_unsigned bs m, sccStr_unsigned bs, mcStr_unsigned bs⟩
 
-/-- …and a signed `char` (what math.c uses, finding F3) gives the same result exactly when it
-    cannot matter: on strings of 7-bit bytes. -/
+/-- Regression characterisation of the former signed `char` reading (fixed by 3e6ded9; frozen
+    `signedConv`/`sextConv`): it agrees with the definition on strings of 7-bit bytes only. -/
 theorem string_stats_signed_7bit (bs : Bytes) (m : Rat) (h : ∀ b ∈ bs, b.toNat < 128) :
     meanStr signedConv bs = Spec.mean bs ∧ deviationStr signedConv bs m = Spec.deviation bs m ∧
     sccStr signedConv bs = Spec.serialCorrelation bs ∧ mcStr sextConv bs = Spec.monteCarloPi bs := by
